@@ -1,4 +1,4 @@
-\* quick: all five kinds; every ordered pair of accepted URIs over
+\* quick: all five kinds; every pair of accepted URIs one edit apart over
 \*   rsync: hosts {h.test, g.test} x {lower, Mixed} x module {m, n}
 \*   https: hosts {h.test, g.test, "..", ""} x case x port
 \*   paths: <= 2 segments over {a, A, ""(trailing slash)}
@@ -7,7 +7,7 @@ SPECIFICATION Spec
 CONSTANTS
   Variant = "as_shipped"
   Kinds = {"mft", "mftn", "ta", "tah", "notify"}
-  Mode = "all"
+  Mode = "near"
   HostsR = {"h.test", "g.test"}
   HostsH = {"h.test", "g.test", "..", ""}
   HCases = {"lower", "mixed"}
@@ -16,6 +16,7 @@ CONSTANTS
   Mods = {"m", "n"}
   Segs = {"a", "A", ""}
   SegsAll = {"a"}
+  NearSpread = 5
   MaxSegs = 2
 INVARIANTS C30_Distinct
 CHECK_DEADLOCK FALSE
